@@ -1,4 +1,5 @@
 import Rangers.Generated.C07Facts
+import Rangers.Generated.C08Types
 import Rangers.Model.TxAuth
 /-!
 # C07 — T-gen tie
@@ -95,5 +96,13 @@ theorem signer_call_order :
       "new(big.Int).Sub", "new", "V.Sub", "recoverPlain", "s.Hash"] ∧
     recoverPlainCalls = ["Vb.BitLen", "crypto.ValidateSignatureValues", "crypto.Ecrecover", "crypto.Keccak256"] :=
   ⟨rfl, rfl⟩
+
+/-- The reflected shape of `eth_tx.txdata` (C08's T-gen, regenerated by this check too) is
+    the one `txOfItem` types the nine items with: uint64, big, uint64, `rlp:"nil"` *[20]byte,
+    big, bytes, big, big, big.  A changed field type, order or tag breaks this obligation. -/
+theorem txdata_shape :
+    Rangers.Generated.C08.eth_tx_txdata =
+      .struct [(.none, .uint 64), (.none, .big), (.none, .uint 64), (.nilOK, .ptr (.barr 20)),
+        (.none, .big), (.none, .bytes), (.none, .big), (.none, .big), (.none, .big)] := rfl
 
 end Rangers.Props.C07Facts
